@@ -275,6 +275,10 @@ class EquationParser(object):
         """
         for var, eqn in self.Endogenous:
             rhs = self.CleanupRightHandSide(eqn)
+            if var in self.InitialConditions:
+                # A variable with an explicit initial condition is not substituted away: its time zero value
+                # differs from the value of the variable it equals, and other equations may depend upon it.
+                continue
             if rhs in self.AllEquations:
                 # We have a case where VAR1 = VAR2.  Replace occurrences of VAR1 by VAR2 in all equations.
                 # BUT: Must break loops like:  (x=y), (y=x), since they will not converge
